@@ -396,6 +396,36 @@ example : Faithful [.give 2, .give 1] := by
 
 example : (readall (fresh [1, 2, 3, 4, 5] [.give 2, .give 1] 4 false true)).1 = .ok [1, 2, 3, 4] := by rfl
 
+/-- The property text asks that a body longer than the configured maximum *surfaces as*
+RequestEntityTooLarge and is never silently truncated. At full strength — "an unbounded `read()` of a
+body longer than the maximum never returns normally" — this is false: `readall`'s loop stops exactly
+at the limit and returns the first `max` bytes; only a *further* read raises (known finding F09b,
+`LimitedStream(BytesIO(b"x" * 11), 10, is_max=True).read()`). -/
+theorem max_truncation_full_false :
+    ¬ (∀ s : St, Inv s → s.isMax = true → s.pos < s.limit → s.limit - s.pos < s.u.data.length →
+        ∀ r, (readall s).1 ≠ .ok r) := by
+  intro h
+  exact h (fresh [1, 2, 3] [] 2 true true) (fresh_inv ..) rfl (by decide) (by decide) [1, 2] rfl
+
+/-- What does hold for a body longer than the maximum on a delivering stream: `read()` returns exactly
+the first `limit - pos` bytes, leaves the object exactly at the limit, and from there every read
+raises RequestEntityTooLarge — the excess is never delivered and never goes unnoticed by a caller
+that reads until end-of-file; the single unbounded `read()` is the only call that does not report it. -/
+theorem max_truncation_partial (s : St) (hi : Inv s) (hm : s.isMax = true) (hf : Faithful s.u.script)
+    (hlim : s.pos < s.limit) (hlong : s.limit - s.pos < s.u.data.length) :
+    (readall s).1 = .ok (s.u.data.take (s.limit - s.pos)) ∧ (readall s).2.pos = s.limit ∧
+    ∀ n, readinto (readall s).2 n = (.error "RequestEntityTooLarge", (readall s).2) := by
+  have h1 := readall_exact s hi hf hlim (Or.inl hm)
+  obtain ⟨d, hadv, hok, _⟩ := readall_spec s
+  have hd := hok _ h1
+  have hpos : (readall s).2.pos = s.limit := by
+    rw [hadv.pos_eq, ← hd, List.length_take]
+    omega
+  refine ⟨h1, hpos, fun n => ?_⟩
+  exact readinto_at_max n (by rw [hadv.isMax_eq]; exact hm) (by rw [hadv.limit_eq, hpos]; exact Nat.le_refl _)
+
+example : (readall (fresh [1, 2, 3] [] 2 true true)).1 = .ok [1, 2] := by rfl
+
 /-- the loop bound of `readall` is not a truncation: any larger fuel gives the same result -/
 theorem readall_fuel_irrelevant (s : St) (hi : Inv s) (g : Nat) (hg : s.limit - s.pos < g) :
     readallLoop g s [] = readallLoop (s.limit - s.pos + 1) s [] :=
